@@ -404,7 +404,12 @@ func readX(wire []byte) string {
 				break
 			}
 			if err.Error() == "unexpected EOF" {
-				out = append(out, "E:short")
+				// io.ErrUnexpectedEOF is both "the stream ends inside a frame" and the payload parsers' short read
+				if wholeFrames(wire) {
+					out = append(out, "E:other")
+				} else {
+					out = append(out, "E:short")
+				}
 				break
 			}
 			out = append(out, errTokX(err))
@@ -413,6 +418,21 @@ func readX(wire []byte) string {
 		out = append(out, sumX(f))
 	}
 	return orDash(strings.Join(out, ","))
+}
+
+// wholeFrames reports whether wire is a whole number of frames.
+func wholeFrames(wire []byte) bool {
+	for len(wire) > 0 {
+		if len(wire) < 9 {
+			return false
+		}
+		l := int(wire[0])<<16 | int(wire[1])<<8 | int(wire[2])
+		if len(wire) < 9+l {
+			return false
+		}
+		wire = wire[9+l:]
+	}
+	return true
 }
 
 func genReqFields(r *hx.Rng, pool *[]hItem, response bool) []hItem {
@@ -550,12 +570,16 @@ func runFrameSeqs(c *hx.Ctx) {
 				wire = append([]byte(nil), wire...)
 				wire[3] = 9
 				mal = "stray-continuation"
-			default: // set PADDED on the first frame
-				wire = append([]byte(nil), wire...)
-				wire[4] |= 8
-				mal = "forced-padded"
+			default: // set PADDED on the first frame if it is DATA (on HEADERS the result is decided by header validation, not modelled)
+				if wire[3] == 0 {
+					wire = append([]byte(nil), wire...)
+					wire[4] |= 8
+					mal = "forced-padded"
+				}
 			}
-			c.Count("frames.malformed." + mal)
+			if mal != "" {
+				c.Count("frames.malformed." + mal)
+			}
 		}
 		// segmentation points
 		var cuts []int
